@@ -80,10 +80,13 @@ impl P16E1 {
             }
         }
         // Strip off the hidden bit and round-to-nearest using last 4 bits.
-        frac_z -= 0x1_0000 >> shift;
+        // For maxpos the root is computed a hair below the next regime, so `frac_z` minus the
+        // hidden bit is a small negative number that the rounding step brings back to zero:
+        // do these two steps in two's-complement (wrapping) arithmetic.
+        frac_z = frac_z.wrapping_sub(0x1_0000 >> shift);
         let bit_n_plus_one = ((frac_z >> 3) & 1) != 0;
         if bit_n_plus_one && ((((frac_z >> 4) & 1) | (frac_z & 7)) != 0) {
-            frac_z += 0x10;
+            frac_z = frac_z.wrapping_add(0x10);
         }
         // Assemble the result and return it.
         Self::from_bits(ui_z | ((frac_z >> 4) as u16))
